@@ -21,7 +21,7 @@ from .srcmodel import AnalysisError
 
 
 class Mutant:
-    def __init__(self, mid, file, old, new, rule=None, why="", first=False):
+    def __init__(self, mid, file, old, new, rule=None, why="", first=False, tier="quick"):
         self.id = mid
         self.file = file
         self.old = old
@@ -29,6 +29,7 @@ class Mutant:
         self.rule = rule
         self.why = why
         self.first = first  # replace only the first occurrence of a repeated anchor (data files)
+        self.tier = tier  # rules of which tier must catch it
 
 
 def _link_tree(src_root, dst_root, replace=None):
@@ -57,11 +58,11 @@ def _link_tree(src_root, dst_root, replace=None):
                 os.symlink(src_root / extra, dst_root / extra)
 
 
-def _finding_keys(prop, root):
+def _finding_keys(prop, root, tier="quick"):
     from . import report
     from .cli import analyse
 
-    ctx, _ = analyse(prop, "quick", root)
+    ctx, _ = analyse(prop, tier, root)
     return sorted({(f.rule, f.key) for f in ctx.findings})
 
 
@@ -90,7 +91,7 @@ def _run_mutant(args):
     try:
         _link_tree(repo_root, root, {m["file"]: new_text})
         try:
-            keys = _finding_keys(prop, root)
+            keys = _finding_keys(prop, root, m.get("tier", "quick"))
         except AnalysisError as e:
             return m["id"], "analysis-error", str(e)[:300]
         except Exception as e:  # a rule crashed on the mutant: a bug of the checker
@@ -132,7 +133,7 @@ def run(prop, ctx):
     scratch = tempfile.mkdtemp(prefix="osaca_sa_selftest_")
     results = {"mutants": len(muts), "caught": 0, "stale": 0, "missed": 0, "details": []}
     try:
-        jobs = [(prop, repo_root, scratch, dict(id=m.id, file=m.file, old=m.old, new=m.new, first=m.first)) for m in muts]
+        jobs = [(prop, repo_root, scratch, dict(id=m.id, file=m.file, old=m.old, new=m.new, first=m.first, tier=m.tier)) for m in muts]
         with ProcessPoolExecutor(max_workers=min(16, max(1, len(jobs) + 1))) as ex:
             norm_future = ex.submit(_run_normalised, (prop, repo_root, scratch))
             outs = list(ex.map(_run_mutant, jobs))
